@@ -21,7 +21,9 @@ def main():
     if not m or not t:
         print('cannot find demo command in notes.md'); return 2
     demo_file, pkg_dir = m.group(1), m.group(2)
-    demo_cmd = 'cp MUTATIONS/%s/demo/%s %s/ && go test -count=1 ./%s -run %s' % (mname, demo_file, pkg_dir, pkg_dir, t.group(1))
+    tg = re.search(r'-tags[ =](\w+)', notes)
+    tags = ('-tags %s ' % tg.group(1)) if tg else ''
+    demo_cmd = 'cp MUTATIONS/%s/demo/%s %s/ && go test -count=1 -timeout 120s %s./%s -run %s' % (mname, demo_file, pkg_dir, tags, pkg_dir, t.group(1))
     copied = os.path.join(wt, pkg_dir, demo_file)
     def clean():
         sh('git checkout -- . && rm -f %s' % copied, wt)
